@@ -10,8 +10,11 @@ CHECKS = {
         'the model decoder returns exactly that value and exactly the bytes that followed it '
         '(C01_roundtrip, C01_concat), and validation does not change the bytes (C01_validate_irrelevant). '
         'The model is tied to /repo on every run by differential execution of GenericDatumWriter/Reader '
-        'against the extracted model on generated (schema, value) pairs; the property predicate is also '
-        'evaluated directly on the implementation outputs.',
+        'against the extracted model on generated (schema, value) pairs (byte lengths at the varint boundaries included); '
+        'the property predicate is also evaluated directly on the implementation outputs, and the other public entry points '
+        'of the same round trip (to_avro_datum, to_avro_datum_schemata, write_value_to_vec, write_value, from_avro_datum, '
+        'from_avro_datum_schemata) must write the same bytes and read the same value. A schema for which no writer can be '
+        'built (null-namespace names inside a namespace, F26) is a known class.',
    note='hand-written model of encode.rs/decode.rs/util.rs/decimal.rs/bigdecimal.rs/resolve.rs; '
         'num-bigint byte conversions and uuid text are modelled and validated, not verified; '
         'HashMap iteration order is a parameter (the value term lists entries in iteration order)',
@@ -122,7 +125,8 @@ CHECKS = {
         'emits, cut at ANY offset - in the magic, anywhere in the metadata map, in the marker - cannot be opened, for every '
         'metadata map (C14_header_cut, from the strict-prefix theorem of the datum decoder). Check: library-'
         'written files (all six codecs) damaged at EVERY byte offset and at every marker/magic byte, compared '
-        'with the expected prefix computed by an independent python parser, and with the model for the null codec.',
+        'with the expected prefix computed by an independent python parser, and with the model for the null codec; the reader is '
+        'iterated to exhaustion, and any value delivered AFTER an error item is a violation (the reader must stop).',
    note='the codec is a Section variable (decompress o compress = id is an assumption, checked by C15); the embedded schema text is '
         'opaque bytes to the header theorem (a header that parses but whose avro.schema is cut is covered by the sweep only)',
    technique='Coq proof (induction over blocks, varint prefix law) + exhaustive damage sweep',
@@ -135,8 +139,9 @@ CHECKS = {
         'encoding of a conforming value is an error (C06_truncation_is_error, from the varint prefix law). '
         'Check: exhaustive byte strings up to length 2/3 x 31 schemas, every prefix and single-byte mutation of '
         'generated valid encodings, random strings; on the implementation: decoded => validates, re-encodes, '
-        're-decodes equal; prefixes are errors; the schema-aware deserializer (universal serde target) agrees '
-        'on success and consumed length; extracted model = implementation on every case.',
+        're-decodes equal; prefixes are errors; the schema-aware deserializer agrees on success and consumed length, into a '
+        'target that keeps every field (universal serde target) and into one that keeps nothing (serde::de::IgnoredAny: Ok '
+        'there requires Ok and the same consumption from the generic decoder); extracted model = implementation on every case.',
    note='hypotheses: schema_wfb (distinct field names, <= 2^32 union branches, fixed decimals >= 1 byte: what the '
         'parser guarantees), allocation limit in [36, 2^63), element sizes >= 2, leaf_ok (excludes the zero-length '
         'decimal - now re-encodable after fix F36, numerically equal - and a big-decimal regrowing past the '
@@ -187,12 +192,17 @@ CHECKS = {
         'encoder produces for a conforming value is in the relation (C02_encoder_in_spec); EVERY byte string in '
         'the relation - any block partition, any sign of counts - is decoded to exactly that value, consuming '
         'exactly it (C02_decoder_accepts_spec); the executable layout generator is sound w.r.t. the relation '
-        '(C02_layout_sound); the specification\'s own examples are derivable. Check: implementation bytes = '
+        '(C02_layout_sound); a strict reading of the block framing (Spec/BlockAudit.v: a block with a negative count is '
+        'cut out by its announced byte size and must hold exactly |count| items) accepts EVERY byte string in the relation '
+        '(C02_audit_accepts_spec); the specification\'s own examples are derivable. Check: implementation bytes = '
         'in-spec model bytes; certified layouts (blocks of 1-3, +/- counts) fed to GenericDatumReader and the '
-        'schema-aware deserializer must read back the value.',
+        'schema-aware deserializer must read back the value; the bytes of the generic encoder AND of the serde writer '
+        '(12 corpus types x target block sizes none/1/16/64/large: the path that emits negative counts with byte sizes) '
+        'pass the extracted strict auditor, are one datum, the same datum for every block size.',
    note='the relation is the independent implementation; a second codebase is not available offline. The serde '
-        'block writer (target_block_size) is checked under C16. The decoder is laxer than the relation '
-        '(over-long varints, ignored byte sizes): not part of the statement.',
+        'block writer (target_block_size) is audited here on corpus types and compared in full under C16. The decoder is laxer '
+        'than the relation (over-long varints, ignored byte sizes): not part of the statement; the auditor is what sees a '
+        'wrong announced size. A schema with a leading-dot reference inside a namespace cannot be given a writer (F26): known class.',
    technique='Coq proof (inductive specification relation; inversion + induction on fuel) + certified-layout differential check',
    design='DESIGN.md 5/C02'),
  'C04': dict(
@@ -254,7 +264,10 @@ CHECKS = {
         'record has exactly the reader fields in reader order and a reader field present in the data takes the written '
         'value wherever it stands (C08_record_fields, C08_record_by_name); enum symbols by name, reader default for '
         'unknown symbols, error without one, equal to the specification function (C08_enum_rules, C08_enum_spec); '
-        'resolution is idempotent on every leaf schema (C08_idempotent_leaves). The full statement is FALSE of the code '
+        'resolution is idempotent on every leaf schema (C08_idempotent_leaves), and at EVERY depth on reader schemas built from '
+        'leaves, arrays, maps and records the result validates against the reader schema and resolving it again changes nothing '
+        '(C08_result_validates_fragment, C08_idempotent_fragment: induction on fuel through map_res and resolve_fields; unions, '
+        'references and plain fixed are outside the fragment). The full statement is FALSE of the code '
         'in eight classes, all around union branch selection and leniency; each has a vm_compute witness on the faithful '
         'model (C08_*_refuted), is replayed on the implementation every run and is listed in known_findings.json. '
         'Check: (W, R, value) triples from the evolution generator through GenericDatumReader(reader_schema) and '
@@ -277,7 +290,7 @@ CHECKS = {
         'arrays, maps, fixed, enums, records without reader aliases whose reader fields all exist in the writer) and is FALSE '
         'of the code outside it in five classes; each has a vm_compute witness on the faithful model '
         '(C09_*_refuted), is replayed on the implementation every run and is listed in known_findings.json. Check: the C08 '
-        'evolution triples plus all 1600 ordered pairs of a 40-schema enumeration x values of W: Full => the read succeeds; '
+        'evolution triples plus all 2116 ordered pairs of a 46-schema enumeration (reader unions holding a single numeric type included) x values of W: Full => the read succeeds; '
         'safe steps never incompatible; can_read(W, W) Full; mutual_read symmetric; model verdicts = implementation verdicts.',
    note='the pointer-keyed memo of the checker is not modelled (it replays the result of a deterministic function of the '
         'pair); recursion-cache effects are covered by the correspondence on recursive generated schemas only',
